@@ -3,7 +3,7 @@
 A patch that no longer applies to HEAD (a later fix touched the same lines) is applied to the newest of the earlier commits it applies to."""
 import json, os, subprocess, sys, glob
 V = os.path.dirname(os.path.dirname(os.path.abspath(__file__)))
-bases = ["HEAD"] + subprocess.run(["git","-C","/repo","log","--format=%h","-n","12"],capture_output=True,text=True).stdout.split()[1:]
+bases = ["HEAD"] + subprocess.run(["git","-C","/repo","log","--format=%h","-n","45"],capture_output=True,text=True).stdout.split()[1:]
 only = sys.argv[1:]
 out = {}
 rp = os.path.join(V,"seeded","regression.json")
@@ -29,6 +29,10 @@ for d in sorted(glob.glob(os.path.join(V,"seeded","C*-*"))):
         out[key] = {"error": "patch applies to none of the recent commits"}
     else:
         det = [p for p,c in res["checks"].items() if c["violation"]]
+        if res["base"] != "HEAD":
+            # an older base still has defects that were repaired since: only a signature recorded for this seed counts there
+            want = set(meta.get("signatures", []))
+            det = [p for p in det if want & set(res["checks"][p]["signatures"])] if want else det
         out[key] = {"base": res["base"], "suite": res["suite_passes_with_change"], "demo_fails_with": res["demo_fails_with_change"], "demo_passes_without": res["demo_passes_without_change"], "detected_by": det}
     print(key, out[key], flush=True)
     json.dump(out, open(os.path.join(V,"seeded","regression.json"),"w"), indent=1, sort_keys=True)
